@@ -476,19 +476,26 @@ func schemaDoc(schema string, k int64) []*Node {
 		return []*Node{i64n("a", 10+k), i64n("bb", 20-k)}
 	case "H": // nested
 		return []*Node{sub("a", i64n("x", k), i64n("y", -k)), i64n("b", 5)}
+	case "I": // value type change among the integer-like types only (a: int32 instead of int64)
+		return []*Node{{Key: "a", Tag: 0x10, Raw: u32(uint32(10 + k))}, i64n("b", 20-k)}
+	case "J": // bool instead of int64
+		return []*Node{i64n("a", 10+k), {Key: "b", Tag: 0x08, Raw: []byte{byte(k & 1)}}}
 	case "Z": // no metrics at all
 		return []*Node{{Key: "s", Tag: 0x02, Raw: append(u32(2), 'x', 0)}}
 	}
 	panic("schema " + schema)
 }
 
-var allSchemas = []string{"A", "B", "C", "D", "E", "F", "G", "H"}
+var allSchemas = []string{"A", "I", "B", "C", "D", "E", "F", "G", "H", "J"}
 
 func streamHist(o *Out, rng *rand.Rand, thorough bool, _ []string) {
 	runStart = time.Now()
 	// exhaustive histories over {a0, a1, x, r, z, f, m0, i} with documents of ONE schema (C08 covers changes)
-	pool := []string{hx(docBytes(schemaDoc("A", 1))), hx(docBytes(schemaDoc("A", 2))), hx(docBytes(schemaDoc("Z", 0)))}
-	alphabet := []string{"a0", "a1", "x", "r", "z", "f", "m1", "i"}
+	// a3: same keys and metric count as A but a different value type at the LAST metric and a changed first metric
+	// (a rejected Add must not leave anything behind in the slot of the next sample)
+	typeChange := []*Node{i64n("a", 99), dbl("b", 0x4024000000000000)}
+	pool := []string{hx(docBytes(schemaDoc("A", 1))), hx(docBytes(schemaDoc("A", 2))), hx(docBytes(schemaDoc("Z", 0))), hx(docBytes(typeChange))}
+	alphabet := []string{"a0", "a1", "a3", "x", "r", "z", "f", "m1", "i"}
 	maxLen := 3
 	if thorough {
 		maxLen = 5
@@ -624,7 +631,8 @@ func streamSchema(o *Out, rng *rand.Rand, thorough bool, _ []string) {
 // C09 fault placement: one or two failing writes among the first K writes
 func streamFault(o *Out, rng *rand.Rand, thorough bool, _ []string) {
 	runStart = time.Now()
-	pool := []string{hx(docBytes(schemaDoc("A", 1))), hx(docBytes(schemaDoc("A", 2))), hx(docBytes(schemaDoc("B", 3)))}
+	pool := []string{hx(docBytes(schemaDoc("A", 1))), hx(docBytes(schemaDoc("A", 2))), hx(docBytes(schemaDoc("B", 3))),
+		hx(docBytes(schemaDoc("G", 4))), hx(docBytes(schemaDoc("G", 5)))}
 	K := 4
 	if thorough {
 		K = 6
@@ -658,6 +666,8 @@ func streamFault(o *Out, rng *rand.Rand, thorough bool, _ []string) {
 		"a0 a1 f a0 f a1 a0 f f",
 		"a0 a1 a2 a2 a0 a1 a2 f a0 f",
 		"a0 f f a1 f a1 a1 a1 f",
+		"a0 a1 a3 a4 a3 f a4 f",       // schema change to a renamed schema of the same shape: the change flush may fail
+		"a0 a3 a3 a4 a0 a1 f f",
 	}
 	for _, sc := range scripts {
 		for _, ctor := range []string{"streaming", "streamingDynamic", "writer"} {
